@@ -102,6 +102,8 @@ impl Exec {
             }
             Ok(Poll::Ready(())) => {
                 self.tasks[i].status.clear();
+                // the future (and every handle it owned) is gone
+                self.log.push(json!({"ev": "task_end", "task": self.tasks[i].name}));
             }
             Err(e) => {
                 let msg = if let Some(s) = e.downcast_ref::<&str>() {
